@@ -247,3 +247,30 @@ def os_sources_section(ctx, pid, cases, via="ccsds"):
                               f"{len(got)} items, outcome {outcome}; the in-memory file gives {len(want)} items, outcome {base_outcome}; first difference at item {firstdiff}",
                               {"data": list(data) if len(data) < 40000 else None, "len": len(data), "kind": kind, "rsize": rsize, "skip": skip, "cut": cut})
     ctx.extra["os_source_runs"] = n
+
+
+def progress_option_section(ctx, pid, cases, via="ccsds"):
+    """show_progress=True only prints: the items, their order and the way the generator ends are those of the run without it
+    (which the specification has validated) - for every source kind, also for empty and truncated input and a peer that closes early.
+    cases: (data, kind, rsize, skip)."""
+    import contextlib
+    import io
+    from harness import framer_io
+    n = 0
+    for data, kind, rsize, skip in cases:
+        chunks = [max(1, len(data) // 3 or 1)] * 8
+        _, base_items, base_outcome = framer_io.run_framer(data, kind, rsize, skip, chooser=framer_io.Script(list(chunks)), max_items=400, via=via)
+        buf = io.StringIO()
+        with contextlib.redirect_stdout(buf):
+            _, items, outcome = framer_io.run_framer(data, kind, rsize, skip, chooser=framer_io.Script(list(chunks)), max_items=400, via=via,
+                                                     gen_kwargs={"show_progress": True})
+        n += 1
+        ctx.traces += 1
+        ctx.count(("show-progress", kind, data[:64], len(data), rsize, skip))
+        a, b = [bytes(x) for x in base_items], [bytes(x) for x in items]
+        if a != b or outcome != base_outcome:
+            ctx.violation(f"{pid}/show-progress/{kind}/{'outcome' if outcome != base_outcome else 'items'}",
+                          f"{kind} source of {len(data)} bytes (read size {rsize}, prefix {skip}): with show_progress=True {len(b)} items, outcome "
+                          f"{outcome}; without it {len(a)} items, outcome {base_outcome}",
+                          {"data": list(data) if len(data) < 40000 else None, "kind": kind, "rsize": rsize, "skip": skip, "option": "show_progress"})
+    ctx.extra["show_progress_runs"] = n
